@@ -757,6 +757,15 @@ impl Authentication for AuthenticationBuiltin {
             ));
           }
 
+          // The reply must also echo the DH public key we sent. The replier has
+          // signed and will use the value it received, so if that was altered on
+          // the way, we must not complete the handshake.
+          if reply.dh1 != dh1.public_key_bytes()? {
+            return Err(create_security_error_and_log!(
+              "Diffie-Hellman parameter DH1 mismatch on authentication reply"
+            ));
+          }
+
           if let Some(received_hash_c1) = &reply.hash_c1 {
             if hash_c1 != *received_hash_c1 {
               return Err(create_security_error_and_log!(
